@@ -248,14 +248,14 @@ theorem aggOK_arr {Γ : Ctx} (h : Spec.aggOK Γ = true) {a : String} {lo hi : In
 
 /-- A field slot is declared with the field type. -/
 theorem aggOK_fld {Γ : Ctx} (h : Spec.aggOK Γ = true) {s tn : String} {fields : List (String × Ty)}
-    (ha : Γ.aggs.lookup s = some (.str tn fields)) {f : String} {t : Ty} (hf : fields.lookup f = some t) :
-    Γ.lookup (fldName s f) = some t := by
+    (ha : Γ.aggs.lookup s = some (.str tn fields)) {f g : String} {t : Ty} (hf : findFld fields f = some (g, t)) :
+    Γ.lookup (fldName s g) = some t := by
   unfold Spec.aggOK at h
   rw [List.all_eq_true] at h
   have h3 := h _ (mem_of_lookup ha)
   simp only at h3
   rw [List.all_eq_true] at h3
-  simpa using h3 _ (mem_of_lookup hf)
+  simpa using h3 _ (List.mem_of_find?_eq_some hf)
 
 theorem indexToI64_ok {k : IKind} (hk : k ≠ .ulint) (x : Int) : indexToI64 .real (.i k x) = .ok x := by
   cases k <;> first | rfl | exact absurd rfl hk
@@ -777,8 +777,14 @@ theorem eval_rel (hσ : StoreWT Γ σ) (e : Expr) : EvalIH Γ σ e := by
     split at hT
     · rename_i tn fields hag
       have hσa : σ.aggs.lookup s = some (.str tn fields) := by rw [hσ.aggs]; exact hag
-      obtain ⟨v, hv, hvt⟩ := hσ.vars _ _ (aggOK_fld hσ.ctx hag hT)
-      simp [evalExpr, hσa, hT, readSlot, hv, Spec.eval, slookup_erase, RelV, pure, Except.pure, hvt]
+      cases hf : findFld fields f with
+      | none => simp [hf] at hT
+      | some q =>
+        obtain ⟨g, t⟩ := q
+        simp [hf] at hT
+        subst hT
+        obtain ⟨v, hv, hvt⟩ := hσ.vars _ _ (aggOK_fld hσ.ctx hag hf)
+        simp [evalExpr, hσa, hag, hf, readSlot, hv, Spec.eval, slookup_erase, RelV, pure, Except.pure, hvt]
     · simp at hT
 
 end
